@@ -424,11 +424,21 @@ type verifC23Stream struct {
 }
 
 func verifC23BuildStream(t *rapid.T, version uint8, maxFrames int) verifC23Stream {
+	return verifC23BuildStreamFor(t, version, maxFrames, false)
+}
+
+// verifC23BuildStreamFor: with plainSends every SEND carries the documented
+// per-message opt-out SettingNoEncrypt, which is what a client on an
+// encryption-enabled session sends when it does not encrypt a payload.
+func verifC23BuildStreamFor(t *rapid.T, version uint8, maxFrames int, plainSends bool) verifC23Stream {
 	s := verifC23Stream{version: version, bounds: map[int]int{0: 0}}
 	proto := codec.New()
 	n := rapid.IntRange(1, maxFrames).Draw(t, "frameCount")
 	for i := 0; i < n; i++ {
 		f := verifC23Frame(t, version)
+		if sp, ok := f.(*frame.SendPacket); ok && plainSends {
+			sp.Setting |= frame.SettingNoEncrypt
+		}
 		enc, err := proto.EncodeFrame(f, version)
 		if err != nil {
 			t.Fatalf("EncodeFrame(%s, v%d): %v", verifC23Show(f), version, err)
@@ -473,7 +483,25 @@ func verifC23CheckDelivered(s verifC23Stream, got []frame.Frame, who string) err
 func TestVerifC23Stream(t *testing.T) {
 	kit.Check(t, "C23", func(rt *rapid.T, k *kit.Case) {
 		sess, version, sessLabel := verifC23Session(rt)
-		s := verifC23BuildStream(rt, version, 12)
+		// a share of the sessions has negotiated encryption; their SENDs opt out
+		// per message, so the stream is still the plain concatenation of frames
+		encryptedSession := false
+		if sess != nil && sess.Value(gatewaytypes.SessionValueProtocolVersion) != nil && rapid.IntRange(0, 2).Draw(rt, "encryptionNegotiated") == 0 {
+			keys := wkprotoenc.SessionKeys{AESKey: []byte("1234567890abcdef"), AESIV: []byte("abcdef1234567890")}
+			sess.SetValue(gatewaytypes.SessionValueEncryptionEnabled, true)
+			sess.SetValue(gatewaytypes.SessionValueAESKey, keys.AESKey)
+			sess.SetValue(gatewaytypes.SessionValueAESIV, keys.AESIV)
+			if rapid.Bool().Draw(rt, "cachedCipher") {
+				sc, err := wkprotoenc.NewSessionCrypto(keys)
+				if err != nil {
+					rt.Fatalf("NewSessionCrypto: %v", err)
+				}
+				sess.SetValue(gatewaytypes.SessionValueCrypto, sc)
+			}
+			encryptedSession = true
+			sessLabel += ", encryption negotiated (SENDs opt out)"
+		}
+		s := verifC23BuildStreamFor(rt, version, 12, encryptedSession)
 		total := len(s.stream)
 		kind := rapid.SampledFrom([]string{"one", "bytewise", "random", "header-cuts", "header-cuts", "two-way sweep"}).Draw(rt, "chunking")
 		if total > 6000 && (kind == "bytewise" || kind == "two-way sweep") {
